@@ -66,6 +66,9 @@ func symbols() *sl.Symbols {
 		sl.Op{Name: "upd2(remove fields)", Kind: "upd", Ids: []int{2}, Docs: []sl.Doc{{"vec": "_delete", "flat": "_delete", "ham": "_delete", "txt": "_delete", "s": "_delete", "tags": "_delete", "a": "_delete", "f": "_delete"}}},
 		sl.Op{Name: "upd2,5(add fields)", Kind: "upd", Ids: []int{2, 5}, Docs: []sl.Doc{doc(6), doc(7)}},
 		sl.Op{Name: "upd3(text,vec)", Kind: "upd", Ids: []int{3}, Docs: []sl.Doc{{"txt": "quick zebra", "vec": stored[7]}}},
+		// the same id twice in one batch: set every indexed field, then remove them (and the reverse)
+		sl.Op{Name: "upd3,3(set then remove)", Kind: "upd", Ids: []int{3, 3}, Docs: []sl.Doc{doc(5), {"vec": "_delete", "flat": "_delete", "ham": "_delete", "txt": "_delete", "s": "_delete", "tags": "_delete", "a": "_delete", "f": "_delete"}}},
+		sl.Op{Name: "upd3,3(remove then set)", Kind: "upd", Ids: []int{3, 3}, Docs: []sl.Doc{{"vec": "_delete", "flat": "_delete", "ham": "_delete", "txt": "_delete", "s": "_delete", "tags": "_delete", "a": "_delete", "f": "_delete"}, doc(6)}},
 		sl.Op{Name: "del1", Kind: "del", Ids: []int{1}},
 		sl.Op{Name: "del2,3", Kind: "del", Ids: []int{2, 3}},
 		sl.Op{Name: "ins1(again)", Kind: "ins", Ids: []int{1}, Docs: []sl.Doc{doc(4)}},
